@@ -32,6 +32,14 @@ def run(ctx):
     sec = gen_prog.optest_programs(r, ctx.scale(120, 600), only=["secp256k1_verify", "secp256r1_verify", "keccak256", "g1_multiply", "bls_verify", "g2_add"])
     # the same calls inside calibrated guards (keccak only exists inside extension 1)
     pool += [(p, e, "optest:" + nm) for p, e, nm in sec]
+    # opcode neighbours of the 4-byte extension opcodes: same cost-multiplier prefix, other low byte (other
+    # cost function / alias). Both dialects must treat them as unknown operators, whatever the arguments
+    # (in particular with a VALID signature triple, which a sloppy opcode match would accept as secp).
+    for p, e, nm in list(sec):
+        for code in ("13d61f00", "1c3a8f00"):
+            if p.startswith("pa%s;" % code):
+                for low in r.sample(["01", "3f", "40", "41", "7f", "80", "bf", "c0", "ff"], 3):
+                    pool.append(("pa%s%s;" % (code[:6], low) + p[len(code) + 3:], e, "secp-neighbour:" + nm))
     for f in (0,):
         for p, e, meta in gen_prog.guarded_programs(r, [(p, e) for p, e, _ in sec], f, n=ctx.scale(80, 600)):
             pool.append((p, e, "guard[f=%d %s]" % (f, meta)))
@@ -49,7 +57,7 @@ def run(ctx):
     b = vlib.run_impl("run", [x[1] for x in lines])
     for (l0, l1, p), o0, o1 in zip(lines, a, b):
         k0 = parse_obs(o0)[0]
-        interesting = runlib.has_softfork(p) or "a13d61f00;" in p or "a1c3a8f00;" in p
+        interesting = runlib.has_softfork(p) or "a13d61f" in p or "a1c3a8f" in p
         runlib.count_case(ctx, l1, nontrivial=(k0 == "ok" and interesting))
         ctx.histogram("aware/hiding", "%s/%s" % (k0.split()[0], parse_obs(o1)[0].split()[0]))
         if k0 == "ok" and o0 != o1:
